@@ -172,6 +172,7 @@ func (vc *VC) arrHeapVar(elem types.Type) string {
 	name := "HA_" + vc.typeKey(elem)
 	if _, ok := vc.svSorts[name]; !ok {
 		vc.svSorts[name] = fmt.Sprintf("(Array Int (Array %s %s))", vc.goInt(), vc.sortOf(elem))
+		vc.arrTypes[name] = elem
 	}
 	return name
 }
@@ -189,6 +190,7 @@ func (vc *VC) mapHeapVar(m *types.Map) string {
 	name := "HM_" + ms[2:]
 	if _, ok := vc.svSorts[name]; !ok {
 		vc.svSorts[name] = fmt.Sprintf("(Array Int %s)", ms)
+		vc.mapTypes[name] = m
 	}
 	return name
 }
